@@ -93,9 +93,20 @@ fn generator(returns: PnLReturns) -> TearSheetGenerator {
 fn update_step(n_max: u8, bits: u32) {
     let (returns, mut g) = any_state(n_max, bits);
     let mut tsg = generator(returns);
+    // arbitrary running PnL drawdown state (the PnL curve's generators are fed by update_from_position)
+    tsg.pnl_drawdown = DrawdownGenerator { peak: Some(dec_pos(bits)), drawdown_max: Decimal::ZERO, time_peak: Some(time_at(0)), time_now: time_at(1) };
+    let mut reference = tsg.pnl_drawdown.clone();
     let (pnl, price, quantity) = (dec_i(bits), dec_pos(bits), dec_pos(bits));
     let position = closed(pnl, price, quantity, 3);
     tsg.update_from_position(&position);
+    // the PnL drawdown generators follow the cumulative realised PnL curve at the position's exit time
+    let (mut ref_max, mut ref_mean) = (MaxDrawdownGenerator::default(), MeanDrawdownGenerator::default());
+    if let Some(dd) = reference.update(barter::Timed::new(g.p + pnl, time_at(3))) {
+        ref_max.update(&dd);
+        ref_mean.update(&dd);
+    }
+    assert!(tsg.pnl_drawdown == reference, "C16: the PnL drawdown generator was not fed the cumulative realised PnL at the exit time");
+    assert!(tsg.pnl_drawdown_max == ref_max && tsg.pnl_drawdown_mean == ref_mean, "C16: max / mean PnL drawdown not fed the completed drawdown");
     let r = pnl / (price * quantity);
     if r < Decimal::ZERO {
         g.l += 1;
